@@ -256,7 +256,11 @@ func NewWorld(spec *Spec) *World {
 		given: map[int]any{}, fns: map[int]any{}}
 }
 
-func (w *World) tick() int { w.stamp++; return w.stamp }
+func (w *World) tick() int {
+	w.stamp++
+	vsched.Note(uint64(vsched.ThreadID() + 2))
+	return w.stamp
+}
 
 // Mark records a harness event (operation start / end) and returns its stamp.
 func (w *World) Mark(note string) int {
